@@ -126,7 +126,7 @@ def histories(draw, kind, tier):
     )
     ops = draw(st.lists(op, min_size=6, max_size=40 if tier == "quick" else 60))
     return {"kind": kind, "maxsize": maxsize, "typed": typed,
-            "fn_form": draw(st.sampled_from(["async", "async", "def-eager"])),
+            "fn_form": draw(st.sampled_from(["async", "async", "def-eager", "object"])),
             "eq_instances": draw(st.sampled_from([False, False, True])) if kind == "method" else False,
             "ops": [[o[0], o[1]] + ([[list(o[2][0]), [list(p) for p in o[2][1]]]] if len(o) > 2 else [])
                     for o in ops]}
@@ -313,6 +313,17 @@ def build_targets(case, extra=None):
                 def __hash__(self):
                     return 11
 
+        class _AsyncObj:
+            """the cached callable is an OBJECT (no __get__ of its own): the cache in the class body binds the
+            instance all the same, as a functools cache does"""
+
+            async def __call__(self_obj, self, /, *args, **kwargs):  # noqa: N805
+                return body(alog, (self.tag,) + args, kwargs)
+
+        class _SyncObj:
+            def __call__(self_obj, self, /, *args, **kwargs):  # noqa: N805
+                return body(slog, (self.tag,) + args, kwargs)
+
         class A(Falsy):
             @adeco
             async def m(self, *args, **kwargs):
@@ -323,6 +334,8 @@ def build_targets(case, extra=None):
             def m(self, *args, **kwargs):
                 return body(slog, (self.tag,) + args, kwargs)
 
+        if case.get("fn_form") == "object":
+            A.m, S.m = adeco(_AsyncObj()), sdeco(_SyncObj())
         ai, si = [A(), A()], [S(), S()]
         for k in (0, 1):
             ai[k].tag = si[k].tag = f"inst{k}"
